@@ -101,6 +101,12 @@ class History:
             for nm in names:
                 self.model[slot_of(nm)] = nm
                 self.success.append((tuple(axes), nm))
+        # a bystander: a second Grid on the same dataset with a registry of its own that nobody touches afterwards
+        self.bystander_names = names_for(("X", "Y"))[:1] + names_for(("X",))[-1:]
+        try:
+            self.bystander = new_grid(self.ds, metrics={("X", "Y"): self.bystander_names[:1], ("X",): self.bystander_names[1:]})
+        except Exception:  # noqa: BLE001
+            self.bystander = None
         self.check_registry("after construction")
 
     def register(self, axes, spelling, names, overwrite):
@@ -206,6 +212,12 @@ class History:
                             model={"/".join(sorted(k)): v for k, v in want.items()})
         for slot, nm in self.model.items():
             self.check_slot(slot, nm, when)
+        if getattr(self, "bystander", None) is not None:
+            other = {frozenset(fs): sorted(str(m.name) for m in lst) for fs, lst in self.bystander._metrics.items() if lst}
+            want_other = {frozenset(["X", "Y"]): self.bystander_names[:1], frozenset(["X"]): self.bystander_names[1:]}
+            if other != want_other:
+                raise Violation(f"the registry of another Grid on the same dataset changed ({when})",
+                                registry={"/".join(sorted(k)): v for k, v in other.items()}, expected={"/".join(sorted(k)): v for k, v in want_other.items()})
 
     def check_slot(self, slot, name, when):
         import xarray as xr
